@@ -245,7 +245,11 @@ class SiteChecker:
             if not path.startswith("crate::"):
                 return None
             if path not in _GUARD_FNS.setdefault(crate, {}):
-                _GUARD_FNS[crate][path] = guard_fn_summary(F_.fn(path))
+                gs_ = guard_fn_summary(F_.fn(path))
+                if gs_ is None:
+                    from ..ranges import guard_fn_semantic
+                    gs_ = guard_fn_semantic(F_.fn(path), lambda p_, a_: self.ranger.call_concrete(p_, a_) if self.ranger.call_concrete else None)
+                _GUARD_FNS[crate][path] = gs_
             return _GUARD_FNS[crate][path]
         self.ranger.guard_fn = guard_fn
 
